@@ -84,15 +84,20 @@ PROPS = {
                         'the scan-request phase of executeTasks as a loop (its step is proved in unit engine); composition of the steps over a whole build'],
     },
     'C07': {
-        'units': ['engine_cycle', 'engine_cancel'],
+        'units': ['engine_cycle', 'engine_cancel', 'engine_findcycle', 'engine_gather', 'depids'],
         'design_ref': 'DESIGN.md section 4, C07',
-        'claim': 'trigger and reporting only: the engine looks for a cycle only when a whole round of its loop did nothing, no task is still computing '
+        'claim': 'trigger, search and reporting: the engine looks for a cycle only when a whole round of its loop did nothing, no task is still computing '
                  '(the blocking step before it forces another round whenever completions are owed) and tasks are nevertheless pending; it never '
                  'finishes a build as successful while tasks are pending; an unbreakable cycle fails the build after draining, a broken one lets the loop '
                  'continue; resolveCycle searches under both locks, offers exactly the cycle found for breaking and reports exactly that cycle to the '
-                 'delegate iff it could not be broken',
-        'not_decided': ['that the rule list found is a real dependency cycle starting at the build key (findCycle: 120 lines over five hash containers, assumed)',
-                        'the cycle-breaking heuristics (breakCycle), cycles among rules that are only being scanned', 'liveness: that a real cycle always stalls the loop'],
+                 'delegate iff it could not be broken; findCycle in steps: every paused input request that has a task, and every deferred scan request, parked on a visited scan record '
+                 'becomes exactly one wait-for edge (requests without a task are skipped, not the rest of the list; the record of a rule whose scan is deferred is visited next), '
+                 'the inversion turns every edge into exactly one predecessor entry, and one iteration of the depth-first search keeps the invariant '
+                 'that the path list mirrors the stack, starts at the requested rule, follows predecessor entries only and holds pairwise distinct rules - '
+                 'so the list it stops with starts at the requested rule, every consecutive pair is a wait-for edge, and its last rule repeats an earlier one (graphs of at most 4 rules with at most 3 predecessors each); '
+                 'cleanSingleUseDependencies removes exactly the single-use entries of a dependency list (at most 4 entries), so a single-use request of an earlier build is never a wait-for edge of a later one',
+        'not_decided': ['the first two loops of findCycle (edges from the task records, the initial set of scan records) and the visited-set worklist around the steps; the composition of the steps is on paper',
+                        'the cycle-breaking heuristics (breakCycle)', 'liveness: that a real cycle always stalls the loop; termination of the search (finite simple paths)'],
     },
     'C08': {
         'units': ['extcmd', 'fileinfo', 'extcmd_run'],
